@@ -26,6 +26,12 @@ class Scheduler(JSONSerializable):
         return self.scheduler.state_dict()
 
     def load_state_dict(self, state_dict: dict[str, Any]) -> None:
+        if "milestones" in state_dict:
+            # JSON turns the integer keys of the milestones counter into strings
+            state_dict = dict(state_dict)
+            state_dict["milestones"] = type(self.scheduler.milestones)(
+                {int(k): v for k, v in state_dict["milestones"].items()}
+            )
         self.scheduler.load_state_dict(state_dict)
 
     @classmethod
